@@ -781,6 +781,8 @@ def summ(a):
         return '%s%s' % (a.getformat(), a.shape)
     if hasattr(a, 'lengths') and hasattr(a, '_data'):
         return 'RaggedArray(lengths=%s)' % list(a.lengths)
+    if callable(a):
+        return 'callable:' + getattr(a, '__name__', type(a).__name__)
     r = repr(a)
     return r if len(r) < 60 else r[:57] + '...'
 
